@@ -55,8 +55,16 @@ type obs struct {
 	NameKind string `json:"nk"`
 	NameErr  string `json:"ne,omitempty"`
 	RName    []byte `json:"rname,omitempty"`
-	AllocAll uint64 `json:"aa"`
-	AllocLd  uint64 `json:"al"`
+	FragKind string `json:"fk"` // CalculateFragmentation
+	FragErr  string `json:"fe,omitempty"`
+	Live     uint64 `json:"live"`
+	Total    uint64 `json:"total"`
+	BlkKind  string `json:"bk"` // ReadAllBlocks
+	BlkErr   string `json:"be,omitempty"`
+	NBlk     uint64 `json:"nblk"`
+	NEnt     uint64 `json:"nent"`
+	AllocAll uint64 `json:"aa"` // largest TotalAlloc delta of a single entry point
+	AllocLd  uint64 `json:"al"` // TotalAlloc delta of NewFileReader+LoadIndex
 	Detail   string `json:"detail,omitempty"`
 }
 
@@ -80,7 +88,7 @@ func classify(err error) string {
 
 // loadFile runs the three observed entry points of the real reader on the file at path.
 func loadFile(path string) (o obs) {
-	var m0, m1, m2 runtime.MemStats
+	var m0, m1, m1b, m2, m3, m4 runtime.MemStats
 	runtime.ReadMemStats(&m0)
 	func() {
 		defer func() {
@@ -125,6 +133,7 @@ func loadFile(path string) (o obs) {
 		}
 		o.ScanKind, o.BC, o.EC, o.US = "ok", r.BlockCount, r.TotalEntryCount, r.TotalUncompressedSize
 	}()
+	runtime.ReadMemStats(&m1b)
 	func() {
 		defer func() {
 			if r := recover(); r != nil {
@@ -139,8 +148,56 @@ func loadFile(path string) (o obs) {
 		o.NameKind, o.RName = "ok", []byte(n)
 	}()
 	runtime.ReadMemStats(&m2)
+	func() {
+		defer func() {
+			if r := recover(); r != nil {
+				o.FragKind, o.Detail = "panic", fmt.Sprint(r)
+			}
+		}()
+		fr, err := v2.NewFileReader(path)
+		if err != nil {
+			o.FragKind, o.FragErr = "err", classify(err)
+			return
+		}
+		defer fr.Close()
+		_, live, total, err := fr.CalculateFragmentation()
+		if err != nil {
+			o.FragKind, o.FragErr = "err", classify(err)
+			return
+		}
+		o.FragKind, o.Live, o.Total = "ok", uint64(live), uint64(total)
+	}()
+	runtime.ReadMemStats(&m3)
+	func() {
+		defer func() {
+			if r := recover(); r != nil {
+				o.BlkKind, o.Detail = "panic", fmt.Sprint(r)
+			}
+		}()
+		fr, err := v2.NewFileReader(path)
+		if err != nil {
+			o.BlkKind, o.BlkErr = "err", classify(err)
+			return
+		}
+		defer fr.Close()
+		bl, err := fr.ReadAllBlocks()
+		if err != nil {
+			o.BlkKind, o.BlkErr = "err", classify(err)
+			return
+		}
+		o.BlkKind, o.NBlk = "ok", uint64(len(bl))
+		for _, b := range bl {
+			o.NEnt += uint64(len(b.Entries))
+		}
+	}()
+	runtime.ReadMemStats(&m4)
 	o.AllocLd = m1.TotalAlloc - m0.TotalAlloc
-	o.AllocAll = m2.TotalAlloc - m0.TotalAlloc
+	for _, d := range []uint64{o.AllocLd, m1b.TotalAlloc - m1.TotalAlloc, m2.TotalAlloc - m1b.TotalAlloc,
+		m3.TotalAlloc - m2.TotalAlloc, m4.TotalAlloc - m3.TotalAlloc} {
+		if d > o.AllocAll {
+			o.AllocAll = d
+		}
+	}
 	sort.Slice(o.Idx, func(i, j int) bool { return bytes.Compare(o.Idx[i].K, o.Idx[j].K) < 0 })
 	return o
 }
@@ -154,6 +211,13 @@ func workerMain(tmp string) {
 	_ = syscall.Setrlimit(syscall.RLIMIT_AS, &lim)
 	in := bufio.NewReader(os.Stdin)
 	out := bufio.NewWriter(os.Stdout)
+	// warm-up: one valid file, so that one-time initialisations (crc32 tables, os/file
+	// machinery) are not charged to the first case
+	warm := assemble(fileHeader(v2.Version2, nil), []block{realBlock([]ent{{Op: v2.OpInsert, Key: []byte("k"), Data: []byte("vvvvvvvvvvvvvvvvvvvvvvvv")}})}).File
+	if os.WriteFile(tmp, warm, 0o644) == nil {
+		loadFile(tmp)
+		loadFile(tmp)
+	}
 	for {
 		var n uint32
 		if err := binary.Read(in, binary.LittleEndian, &n); err != nil {
@@ -226,24 +290,24 @@ func (w *worker) run(file []byte, timeout time.Duration) (o obs, alive bool) {
 			if len(msg) > 400 {
 				msg = msg[:400]
 			}
-			o = obs{LoadKind: "panic", ScanKind: "panic", NameKind: "panic", Detail: "worker died: " + msg}
+			o = obs{LoadKind: "panic", ScanKind: "panic", NameKind: "panic", FragKind: "panic", BlkKind: "panic", Detail: "worker died: " + msg}
 			if strings.Contains(msg, "out of memory") || strings.Contains(msg, "cannot allocate memory") {
 				// the address-space limit stopped an allocation of gigabytes: that is the
 				// "allocation out of proportion" clause, not a panic of the reader
-				o = obs{LoadKind: "err", LoadErr: "EOther", ScanKind: "err", ScanErr: "EOther", NameKind: "err", NameErr: "EOther",
+				o = obs{LoadKind: "err", LoadErr: "EOther", ScanKind: "err", ScanErr: "EOther", NameKind: "err", NameErr: "EOther", FragKind: "err", FragErr: "EOther", BlkKind: "err", BlkErr: "EOther",
 					AllocAll: asLimit, AllocLd: asLimit, Detail: "worker hit the address-space limit: " + msg}
 			}
 			return o, false
 		}
 		if err := json.Unmarshal(r.line, &o); err != nil {
-			o = obs{LoadKind: "panic", ScanKind: "panic", NameKind: "panic", Detail: "bad worker output"}
+			o = obs{LoadKind: "panic", ScanKind: "panic", NameKind: "panic", FragKind: "panic", BlkKind: "panic", Detail: "bad worker output"}
 			w.kill()
 			return o, false
 		}
 		return o, true
 	case <-time.After(timeout):
 		w.kill()
-		return obs{LoadKind: "timeout", ScanKind: "timeout", NameKind: "timeout", Detail: "no answer within " + timeout.String()}, false
+		return obs{LoadKind: "timeout", ScanKind: "timeout", NameKind: "timeout", FragKind: "timeout", BlkKind: "timeout", Detail: "no answer within " + timeout.String()}, false
 	}
 }
 
@@ -523,7 +587,48 @@ type fcase struct {
 	snOk    bool
 }
 
-var forgedSizes = []uint32{0, 1, 15, 16, 17, 255, 65535, 65536, 1 << 20, 1 << 26, 0x7FFFFFFF, 0x80000000, 0xFFFFFFF0, 0xFFFFFFFF}
+// sizes a damaged 32-bit field may claim: boundaries, "plausible block" sizes just above the
+// default 16 KiB block (a guard that trusts plausible sizes must still look at the file),
+// mid-range sizes the allocation accounting can measure exactly, and the extremes
+var forgedSizes = []uint32{0, 1, 15, 16, 17, 255, 4096, 16384, 17000, 19000, 20000, 65535, 65536, 70000, 1 << 17, 1 << 20,
+	1 << 22, 1 << 23, 1 << 24, 1 << 26, 1 << 28, 0x7FFFFFFF, 0x80000000, 0xFFFFFFF0, 0xFFFFFFFF}
+
+// fields of the 64-byte file header the reader has no reason to trust (everything except
+// magic, version and NameLength, which have their own forgeries)
+var fileHdrFields = []struct {
+	Off, Len int
+	Name     string
+}{{6, 2, "Flags"}, {8, 8, "CreatedAt"}, {16, 8, "ModifiedAt"}, {24, 4, "BlockSize"}, {28, 8, "EntryCount"},
+	{36, 8, "BlockCount"}, {46, 14, "Reserved"}, {60, 4, "Tail"}}
+
+var fieldExtremes = []uint64{0, 1, 16, 255, 1 << 20, 1 << 28, 1 << 31, 0x7FFFFFFF, 0xFFFFFFFF, 0x7FFFFFFFFFFFFFFF, 0xFFFFFFFFFFFFFFFF}
+
+// forgeFileHdrFields overwrites 1..3 of those fields in place (the layout of f is unchanged)
+func forgeFileHdrFields(r *common.Rng, f []byte) string {
+	if len(f) < 64 {
+		return ""
+	}
+	var d []string
+	for k := 1 + r.Intn(3); k > 0; k-- {
+		fd := fileHdrFields[r.Intn(len(fileHdrFields))]
+		if r.Chance(40) {
+			fd = fileHdrFields[3+r.Intn(3)] // BlockSize / EntryCount / BlockCount: the ones a reader is tempted to use
+		}
+		v := fieldExtremes[r.Intn(len(fieldExtremes))]
+		if r.Chance(15) {
+			v = r.U64()
+		}
+		for i := 0; i < fd.Len; i++ {
+			if i < 8 {
+				f[fd.Off+i] = byte(v >> (8 * i))
+			} else {
+				f[fd.Off+i] = byte(v >> 56)
+			}
+		}
+		d = append(d, fmt.Sprintf("%s:=%#x", fd.Name, v))
+	}
+	return "file header " + strings.Join(d, ",")
+}
 
 func clone(b []byte) []byte { return append([]byte{}, b...) }
 
@@ -535,7 +640,47 @@ func getBlockHdr(f []byte, pos int) (h v2.BlockHeader) {
 
 // mutate returns a damaged variant of a valid file; strict = no checksum was recomputed, so
 // every record the reader returns must be one that was written to the base file
+//
+// Damage is compounded: independent of the main mutation, untrusted file-header fields are
+// forged in about a third of the files and a second, layout-agnostic mutation follows in a
+// fifth of them - a guard that is only skipped when TWO fields cooperate must still be reached.
 func mutate(r *common.Rng, b base) (kind, descr string, f []byte, strict bool) {
+	kind, descr, f, strict = mutate1(r, b)
+	f = clone(f)
+	if r.Chance(35) {
+		if d := forgeFileHdrFields(r, f); d != "" {
+			descr += " + " + d
+		}
+	}
+	if r.Chance(20) && len(f) > 0 {
+		switch r.Intn(4) {
+		case 0:
+			p := r.Intn(len(f))
+			f[p] ^= 1 << r.Intn(8)
+			descr += fmt.Sprintf(" + bit flip in byte %d", p)
+		case 1:
+			claim := forgedSizes[r.Intn(len(forgedSizes))]
+			have := r.Intn(12)
+			h := v2.BlockHeader{CompressedSize: claim, UncompressedSize: claim, EntryCount: uint16(r.Intn(3)), Checksum: uint32(r.U64())}
+			f = append(append(f, h.Serialize()...), r.Bytes(have)...)
+			descr += fmt.Sprintf(" + orphan header claiming %d bytes, %d present", claim, have)
+		case 2:
+			n := 1 + r.Intn(20)
+			f = append(f, r.Bytes(n)...)
+			descr += fmt.Sprintf(" + %d garbage bytes appended", n)
+		default:
+			n := r.Intn(20)
+			if n > len(f) {
+				n = len(f)
+			}
+			f = f[:len(f)-n]
+			descr += fmt.Sprintf(" + last %d bytes cut", n)
+		}
+	}
+	return
+}
+
+func mutate1(r *common.Rng, b base) (kind, descr string, f []byte, strict bool) {
 	f = clone(b.L.File)
 	nb := len(b.L.Blocks)
 	pick := r.Intn(100)
@@ -594,7 +739,27 @@ func mutate(r *common.Rng, b base) (kind, descr string, f []byte, strict bool) {
 			h.Flags = uint16(v)
 		}
 		putBlockHdr(f, pos, h)
-		return "forge-blockhdr", fmt.Sprintf("block %d %s := %d", bi, name, v), f, true
+		d := fmt.Sprintf("block %d %s := %d", bi, name, v)
+		if r.Chance(30) { // a second forged field, in this or another block header
+			bj := r.Intn(nb)
+			pos2 := b.L.Blocks[bj][0]
+			h2 := getBlockHdr(f, pos2)
+			v2f := forgedSizes[r.Intn(len(forgedSizes))]
+			switch r.Intn(3) {
+			case 0:
+				h2.CompressedSize = v2f
+				d += fmt.Sprintf(", block %d CompressedSize := %d", bj, v2f)
+			case 1:
+				h2.UncompressedSize = v2f
+				d += fmt.Sprintf(", block %d UncompressedSize := %d", bj, v2f)
+			default:
+				h2.EntryCount = uint16(v2f)
+				d += fmt.Sprintf(", block %d EntryCount := %d", bj, uint16(v2f))
+			}
+			putBlockHdr(f, pos2, h2)
+			return "forge-blockhdr2", d, f, true
+		}
+		return "forge-blockhdr", d, f, true
 	case pick < 62: // forge a file header field
 		switch r.Intn(4) {
 		case 0:
@@ -681,6 +846,10 @@ func mutate(r *common.Rng, b base) (kind, descr string, f []byte, strict bool) {
 		if fixUsize {
 			h.UncompressedSize = uint32(len(raw))
 		}
+		if r.Chance(30) { // the reserved per-block Flags must not switch any check off
+			h.Flags = []uint16{1, 2, 0x8000, 0xFFFF, uint16(r.U64())}[r.Intn(5)]
+			what += fmt.Sprintf(", Flags := %#x", h.Flags)
+		}
 		h.CompressedSize = uint32(len(comp))
 		h.Checksum = crc32.ChecksumIEEE(comp)
 		out := clone(f[:s])
@@ -698,6 +867,13 @@ func mutate(r *common.Rng, b base) (kind, descr string, f []byte, strict bool) {
 			have := r.Intn(claim)
 			if r.Bool() {
 				have = 0
+			}
+			if r.Chance(40) {
+				claim = int(forgedSizes[r.Intn(len(forgedSizes))] & 0x7FFFFFFF)
+				have = r.Intn(16)
+				if have > claim {
+					have = claim
+				}
 			}
 			h := v2.BlockHeader{CompressedSize: uint32(claim), UncompressedSize: uint32(claim), EntryCount: 1, Checksum: uint32(r.U64())}
 			f = append(f, h.Serialize()...)
@@ -845,11 +1021,24 @@ func caseTerm(eofs [3]bool, c *fcase) string {
 	default:
 		name = "NTimeout"
 	}
+	cnt := func(kind, e string, a, b uint64) string {
+		switch kind {
+		case "ok":
+			return common.App("COk", common.N(a), common.N(b))
+		case "err":
+			return common.App("CErr", errTerm(e))
+		case "panic":
+			return "CPanic"
+		}
+		return "CTimeout"
+	}
+	frag := cnt(o.FragKind, o.FragErr, o.Live, o.Total)
+	blks := cnt(o.BlkKind, o.BlkErr, o.NBlk, o.NEnt)
 	sn := c.snTerm
 	return common.App("MkCase",
 		"("+common.Bool(eofs[0])+", "+common.Bool(eofs[1])+", "+common.Bool(eofs[2])+")",
 		hx(c.File), common.N(uint64(crc32.ChecksumIEEE(c.File))),
-		hx(c.SnIn), sn, load, scan, name, common.N(o.AllocAll), common.N(o.AllocLd))
+		hx(c.SnIn), sn, load, scan, name, frag, blks, common.N(o.AllocAll), common.N(o.AllocLd))
 }
 
 // probeTail observes how the implementation classifies an incomplete tail (policy input, M2)
@@ -930,9 +1119,36 @@ func main() {
 		add("witness", "valid block, EntryCount forged to 65535", assemble(hd, []block{b4}).File, written(es))
 	}
 
+	// cooperating damage: every untrusted file-header field at an extreme, together with a block
+	// header (after one intact block) that claims far more payload than the file holds
+	{
+		es := []ent{{Op: v2.OpInsert, Key: []byte("intact"), Data: []byte("record")}}
+		good := assemble(fileHeader(v2.Version3, []byte("w/x/y")), []block{realBlock(es)}).File
+		claims := []uint32{19000, 1 << 20, 1 << 24, 1 << 26, 1 << 28}
+		k := 0
+		for _, fd := range fileHdrFields {
+			for _, v := range []uint64{0, 0xFFFFFFFFFFFFFFFF, 1 << 28} {
+				f := clone(good)
+				for i := 0; i < fd.Len; i++ {
+					f[fd.Off+i] = byte(v >> (8 * (i % 8)))
+				}
+				claim := claims[k%len(claims)]
+				k++
+				h := v2.BlockHeader{CompressedSize: claim, UncompressedSize: claim, EntryCount: 1, Checksum: 0x12345678}
+				f = append(append(f, h.Serialize()...), 1, 2, 3, 4, 5, 6, 7)
+				add("witness2", fmt.Sprintf("file header %s:=%#x and a block header claiming %d bytes, 7 present", fd.Name, v, claim), f, written(es))
+			}
+		}
+	}
+
 	for i := 0; i < nBases; i++ {
 		b := rndBase(rng, tmpdir, i)
 		add("valid", b.Descr, b.L.File, b.Written)
+		{ // the same file with untrusted header fields forged: must load to the same records
+			f := clone(b.L.File)
+			d := forgeFileHdrFields(rng, f)
+			add("valid-hdrfields", d, f, b.Written)
+		}
 		run.Hist("base:" + b.Descr)
 		if i < truncAll { // every truncation point of the first few files
 			for n := 0; n < len(b.L.File); n++ {
